@@ -3,6 +3,7 @@ import ApolloModel.Proofs.ParserLossless
 import ApolloModel.Proofs.TreeRanges2
 import ApolloModel.Model.TreeRanges
 import ApolloModel.Proofs.FromCst
+import ApolloModel.Proofs.NameNodes5
 /-
 C11 — Source locations and line/column positions are correct.
 
@@ -129,13 +130,31 @@ theorem parsed_name_ranges_exact (rl : Nat) (src : Parse.Str) (root : Elem)
   simp only [Elem.len, Elem.text] at this
   exact this
 
-/-- Stated, not proved: EVERY NAME node of every parsed tree has that shape (it follows from
-    `name_node_is_one_ident` for the nodes built by `name()`; the other site, ty.rs
-    `NAMED_TYPE[NAME[eat IDENT]]`, builds the same shape).  Checked on every case of the parser
-    correspondence (same S-expression as the real CST) and by the `c11.ranges` stream. -/
+/-- EVERY NAME node of every parsed tree is `NAME[IDENT]` (statement; proved next). -/
 def all_name_nodes_are_one_ident : Prop :=
   ∀ (e : Entry) (tl : Option Nat) (rl : Nat) (src : Parse.Str) (root : Elem),
     (parse e tl rl src).outcome = .tree root → namesAreIdents root = true
+
+/-- … for every entry point (document, selection set, type), every token limit, recursion limit and
+    input, with or without syntax errors.  Proved by a builder-shape invariant carried through every
+    primitive and every one of the grammar functions (Proofs/NameNodes1–5.lean): whatever a parser
+    function appends to the tree contains only NAME nodes of that shape; `withNode k` preserves this
+    for every `k ≠ "NAME"`, and the only two places that open a NAME node — `name()` and the
+    `NAMED_TYPE` branch of ty.rs — do so on a Name token and put exactly the IDENT token inside.
+    One line of structural automation per grammar function, so a changed function body is re-checked. -/
+theorem all_name_nodes_one_ident : all_name_nodes_are_one_ident :=
+  fun e tl rl src root h => Parse.all_name_nodes_one_ident e tl rl src root h
+
+/-- EVERY NAME NODE OF A PARSED DOCUMENT, without assuming its shape: it is one IDENT token, and
+    (no token limit, nothing dropped) its range slices the source to exactly that name. -/
+theorem every_name_location_exact (rl : Nat) (src : Parse.Str) (root : Elem)
+    (h : (parse .document none rl src).outcome = .tree root)
+    (hd : (parse .document none rl src).dropped = false) (p : List Nat) (cs : List Elem)
+    (hn : subAt root p = some (.node "NAME" cs)) :
+    ∃ d, cs = [.tok "IDENT" d] ∧ sliceBytes src (offsetAt root p) (LC.byteLen d) = some d := by
+  have hr := Parse.all_name_nodes_one_ident .document none rl src root h
+  obtain ⟨d, rfl⟩ := name_node_shape cs (namesAreIdents_subAt p root _ hr hn)
+  exact ⟨d, rfl, parsed_name_location_exact rl src root h hd p d hn⟩
 
 /-- `type A{a:[!]b:B}` -/
 def droppedWitness : Parse.Str := ['t','y','p','e',' ','A','{','a',':','[','!',']','b',':','B','}']
